@@ -161,10 +161,23 @@ void __cyg_profile_func_enter(void *, void *) { if (STREAMPOINTS && vs_active() 
 void __cyg_profile_func_exit(void *, void *) { if (STREAMPOINTS && vs_active() && vs_self() > 0) { vs_fp_t fp = {2000, 1}; vs_point_fp(301, -1, &fp, 1); } }
 }
 static int g_ofd = -1;
+static int STATEFUL = 0;
+static std::vector<Aesmode *> *g_streams = nullptr;
+static FILE *g_fin = nullptr;
 static uint64_t obs_hash() {
   uint64_t h = 1469598103934665603ULL;
   auto mix = [&](uint64_t v) { h ^= v; h *= 1099511628211ULL; };
   if (!g_bg || !g_bg->ctrl) return h;
+  if (STATEFUL) { // everything that can influence the future or a monitor's verdict (state-matching search prunes on this hash)
+    for (u32_t i = 0; i < g_bg->size; i++) { const u8_t *p = (const u8_t *)g_bg->buflst[i].b; for (u32_t k = 0; k < S; k++) mix(p[k]); }
+    if (g_streams) for (auto m : *g_streams) { const u8_t *p = SCEN == "pipe" ? (ENC ? ((ChainEnc *)m)->st : ((ChainDec *)m)->st) : nullptr; if (p) for (int k = 0; k < 16; k++) mix(p[k]); }
+    if (g_ofd >= 0) { Bytes o = slurp_fd(g_ofd); mix(o.size()); for (auto b : o) mix(b); } // output stream is unbuffered in this mode
+    if (g_fin) mix((uint64_t)ftell(g_fin));
+    mix(g_nchunks);
+    for (int i = 0; i < multicry_master::THREAD_MAX; i++) { mix(g_chunk_of_buf[i] + 1); mix(g_io_busy[i]); mix(g_log[i].size()); for (auto &l : g_log[i]) { mix(l.tid); mix(l.buf + 1); mix(l.gblock + 1); } }
+    mix(g_overlap.size());
+    mix(vs_nraces);
+  }
   for (u32_t i = 0; i < g_bg->size; i++) {
     mix(g_bg->ctrl[i].state);
     mix(g_bg->buflst[i].now); mix(g_bg->buflst[i].total); mix(g_bg->buflst[i].tail); mix(g_bg->buflst[i].isfinal);
@@ -197,6 +210,9 @@ static void scenario_pipe(std::string &obs) {
   FILE *fi = fopen_fd(ifd, "rb"), *fo = fopen_fd(ofd, "wb+");
   std::vector<Aesmode *> m;
   for (int i = 0; i < Tn; i++) m.push_back(ENC ? (Aesmode *)new ChainEnc(IV0, i) : (Aesmode *)new ChainDec(IV0, i));
+  g_streams = &m;
+  g_fin = fi;
+  if (STATEFUL) setvbuf(fo, NULL, _IONBF, 0);
   buffergroup::get_instance()->set_buffergroup(Tn, fi, fo, ENC);
   vs_group_of = group_of;
   vs_fp_of = fp_of_pthread_op;
@@ -207,6 +223,8 @@ static void scenario_pipe(std::string &obs) {
   mm.run_multicry(m.data(), [](std::string, size_t) {});
   vs_end();
   int nthreads = vs_nthreads_seen;
+  g_streams = nullptr;
+  g_fin = nullptr;
   buffergroup::del_instance();
   fflush(fo);
   Bytes out = slurp_fd(ofd);
@@ -302,6 +320,9 @@ int main(int argc, char **argv) {
   cfg.bound = (int)a.num("bound", 2);
   cfg.sleep = a.num("sleep", 0) != 0;
   cfg.delay = a.num("delay", 0) != 0;
+  STATEFUL = (int)a.num("stateful", 0);
+  cfg.stateful = STATEFUL != 0;
+  if (cfg.stateful) cfg.bound = 1 << 20; // state matching replaces the preemption bound
   cfg.spurious = (int)a.num("spurious", 0);
   cfg.maxexec = a.num("maxexec", -1);
   cfg.deadline_s = (double)a.num("deadline", -1);
@@ -325,7 +346,7 @@ int main(int argc, char **argv) {
     if (ENC) { IN = P; EXP = F; } else { IN = F; EXP = P; }
     sc = scenario_e2e;
   }
-  std::string cfgname = SCEN + ":T=" + std::to_string(Tn) + ",len=" + std::to_string(len) + ",enc=" + std::to_string(ENC) + ",S=" + std::to_string(S) + (RAWDEC ? ",rawbody" : "") + (STREAMPOINTS ? ",stream-code-points" : "") + (SCEN == "e2e" ? ",cmode=" + std::to_string(CMODE) : "") + (COARSE == 1 ? ",medium" : COARSE == 2 ? ",coarse" : "") + (cfg.sleep ? ",sleepsets" : (cfg.delay ? ",delaybound=" : ",bound=") + std::to_string(cfg.bound)) + (cfg.spurious ? ",spurious=" + std::to_string(cfg.spurious) : "");
+  std::string cfgname = SCEN + ":T=" + std::to_string(Tn) + ",len=" + std::to_string(len) + ",enc=" + std::to_string(ENC) + ",S=" + std::to_string(S) + (RAWDEC ? ",rawbody" : "") + (STREAMPOINTS ? ",stream-code-points" : "") + (SCEN == "e2e" ? ",cmode=" + std::to_string(CMODE) : "") + (COARSE == 1 ? ",medium" : COARSE == 2 ? ",coarse" : "") + (cfg.stateful ? std::string(",state-matching") : cfg.sleep ? ",sleepsets" : (cfg.delay ? ",delaybound=" : ",bound=") + std::to_string(cfg.bound)) + (cfg.spurious ? ",spurious=" + std::to_string(cfg.spurious) : "");
 
   if (a.has("replay")) { // run one schedule twice, print observations, exit 0 iff identical
     std::vector<int> pre = a.list("replay");
@@ -360,7 +381,7 @@ int main(int argc, char **argv) {
         if (x.outcome == vx::OC_TIMEOUT && y.outcome != vx::OC_TIMEOUT) { reported[k]--; continue; } // slow machine, not a hang
         bool same = false;
         for (auto &e2 : classify_all(y)) if (e2.prop == e.prop && e2.key == e.key) same = true;
-        std::string rargs = "T=" + std::to_string(Tn) + " len=" + std::to_string(len) + " enc=" + std::to_string(ENC) + " scenario=" + SCEN + " cmode=" + std::to_string(CMODE) + " hmode=" + std::to_string(HMODE) + " coarse=" + std::to_string(COARSE) + " rawdec=" + std::to_string(RAWDEC) + " instr=" + std::to_string(STREAMPOINTS) + " spurious=" + std::to_string(cfg.spurious) + " sleep=" + std::to_string(cfg.sleep ? 1 : 0) + " prop=" + e.prop + " bufsz=" + std::to_string(NB);
+        std::string rargs = "T=" + std::to_string(Tn) + " len=" + std::to_string(len) + " enc=" + std::to_string(ENC) + " scenario=" + SCEN + " cmode=" + std::to_string(CMODE) + " hmode=" + std::to_string(HMODE) + " coarse=" + std::to_string(COARSE) + " rawdec=" + std::to_string(RAWDEC) + " instr=" + std::to_string(STREAMPOINTS) + " spurious=" + std::to_string(cfg.spurious) + " sleep=" + std::to_string(cfg.sleep ? 1 : 0) + " stateful=" + std::to_string(STATEFUL) + " prop=" + e.prop + " bufsz=" + std::to_string(NB);
         J().s("t", "viol").s("prop", e.prop).s("key", e.key).s("desc", "[" + cfgname + "] " + e.desc + " | deviations=" + std::to_string(vx::deviations_of(x)) + (same ? " | replayed: same verdict" : " | REPLAY DIFFERS: " + vkeys(classify_all(y))))
             .raw("replay", J().s("harness", "pipe_explore").s("args", rargs).raw("schedule", jarr(ch)).n("bufsz", NB).str()).bo("confirmed", same).emit();
       }
@@ -378,7 +399,9 @@ int main(int argc, char **argv) {
   }
   std::map<std::string, long> oc(st.outcomes.begin(), st.outcomes.end());
   J().s("t", "cov").n("evaluations", st.executions).n("transitions", st.transitions).n("nontrivial", st.nontrivial).n("states_shard", (long)st.states.size()).n("sleepblocked", st.sleepblocked)
-      .n("distinct_observations", (long)st.observations.size()).n("capped", st.capped ? 1 : 0).emit();
+      .n("distinct_observations", (long)st.observations.size()).n("capped", st.capped ? 1 : 0)
+      .n("state_cuts", st.state_cuts).n("successor_checks", st.succ_checked).n("successor_mismatches", st.succ_mismatch).emit();
+  if (cfg.stateful) J().s("t", "flag").s("name", "abstraction_deterministic").bo("value", st.succ_mismatch == 0).emit();
   J().s("t", "hist").s("name", "outcomes").raw("counts", jmap(oc)).emit();
   if (SCEN == "pipe") { bool seen = true; for (auto &o : st.observations) if (o.first.find("hooks=MISSING") != std::string::npos) seen = false; J().s("t", "flag").s("name", "hooks_seen").bo("value", seen).emit(); }
   J().s("t", "info").s("config", cfgname).n("executions", st.executions).n("states", (long)st.states.size()).n("max_deviations", st.max_preemptions_seen).bo("completed", !st.capped).n("distinct_observations", (long)st.observations.size()).n("shard", cfg.shard).emit();
